@@ -2,6 +2,7 @@ SPECIFICATION Spec
 CONSTANT Configs <- ConfigsFinding
 CONSTANT RandVals <- RandValsFinding
 CONSTANT K = 2
+CONSTANT SkipSame = "no"
 CONSTANT defaultInitValue = 0
 INVARIANT InvP3NoExclusion
 CHECK_DEADLOCK FALSE
